@@ -91,21 +91,14 @@ theorem splitOnSlash_pointer : ∀ (ts : List Bytes) (t : Bytes),
     rw [splitOnSlash_append _ _ (encodeToken_no_slash t), splitOnSlash_pointer ts t2]
 
 /-- parsing the escaped spelling gives the names back -/
-theorem parsePointer_pointerOf (toks : List Bytes) (h : ∀ t ∈ toks, t ≠ []) :
+theorem parsePointer_pointerOf (toks : List Bytes) :
     Spec.parsePointer (pointerOf toks) = some toks := by
   cases toks with
   | nil => rfl
   | cons t ts =>
     simp only [pointerOf, Spec.parsePointer, ne_eq, not_true_eq_false, if_false]
     rw [splitOnSlash_pointer]
-    have hany : (encodeToken t :: ts.map encodeToken).any (·.isEmpty) = false := by
-      rw [← List.map_cons, List.any_map]
-      rw [List.any_eq_false]
-      intro x hx
-      simp only [Function.comp, List.isEmpty_iff]
-      exact encodeToken_ne_nil (h x hx)
-    rw [hany]
-    simp only [Bool.false_eq_true, if_false, Option.some.injEq]
+    simp only [Option.some.injEq]
     rw [← List.map_cons, List.map_map]
     conv => rhs; rw [← List.map_id (t :: ts)]
     apply List.map_congr_left
@@ -156,10 +149,10 @@ theorem applyOp_add_ensure (o : Spec.Opts) (he : o.ensure = true) (size acc : Na
 /-- **tokens are decoded as everywhere else**: an `add` (with the option) at the pointer that
 spells the names `toks` with `~1` for `/` and `~0` for `~` puts the value at the unescaped names -/
 theorem tokens_decoded (o : Spec.Opts) (he : o.ensure = true) (size acc : Nat) (d v : Value)
-    (toks : List Bytes) (hne : toks ≠ []) (h : ∀ t ∈ toks, t ≠ []) (d' : Value) (acc' : Nat)
+    (toks : List Bytes) (hne : toks ≠ []) (d' : Value) (acc' : Nat)
     (hok : Spec.applyOp o size acc d { kind := .add, path := pointerOf toks, value := some v } = .ok (d', acc')) :
     resolveAdded o d' toks = some v := by
-  rw [applyOp_add_ensure o he size acc d v _ toks (parsePointer_pointerOf toks h) hne] at hok
+  rw [applyOp_add_ensure o he size acc d v _ toks (parsePointer_pointerOf toks) hne] at hok
   obtain ⟨d1, h1, h2⟩ := Spec.Res.bind_eq_ok.1 hok
   cases h2
   exact found_at_path o v toks d d' h1
